@@ -12,7 +12,7 @@ import SafeC.DriverNorm
 on the same memory layout, prints the model's observation line.
 -/
 open SafeC SafeC.Driver
-open SafeC.DriverSort (sortLine bsLine cycLine)
+open SafeC.DriverSort (sortLine bsLine cycLine pntzLine)
 
 def tokenMap (line : String) : List (String × String) :=
   (line.trimAscii.toString.splitOn " ").filterMap fun t =>
@@ -35,6 +35,7 @@ def processLine (line : String) : String := Id.run do
   if (lookup m "sort").isSome then return sortLine id m
   if (lookup m "bs").isSome then return bsLine id m
   if (lookup m "cyc").isSome then return cycLine id m
+  if (lookup m "pntz").isSome then return pntzLine id m
   if let some k := lookup m "pf" then return Pf.printfLine id k m
   if let some k := lookup m "uni" then return Uni.uniLine id k m
   let some fn := lookup m "fn" | return s!"id={id} err=badop"
